@@ -101,6 +101,7 @@ class Ctx:
         self.solver.set("timeout", timeout_ms)
         self.timeout_ms = timeout_ms
         self.feas_timeout_ms = 400
+        self.choice_log = []   # outcomes of abstract library decisions (e.g. does int() accept the lexeme)
         self.decisions = list(decisions)
         self.pos = 0
         self.alternatives = []
